@@ -63,9 +63,12 @@ type lout struct {
 type lorigin struct {
 	stack string
 	pos   token.Pos
+	// quiet: raised by user code outside Receive (the Producer). Where it ends up is nobody's promise, so an escape is
+	// not reported; what a recover handler that catches it does to the incarnations is analysed like any other path.
+	quiet bool
 }
 
-func (o lorigin) via(fn string) lorigin { return lorigin{canonStack(fn, o.stack), o.pos} }
+func (o lorigin) via(fn string) lorigin { return lorigin{canonStack(fn, o.stack), o.pos, o.quiet} }
 
 type lfinding struct {
 	Kind  string
@@ -112,7 +115,7 @@ type LTA struct {
 	changed   bool
 	problems  []string
 	findings  map[string]lfinding // final, keyed
-	stats     struct{ summaries, rounds, deliveries, states int }
+	stats     struct{ summaries, rounds, deliveries, states, producers int }
 	driver    string
 }
 
@@ -217,6 +220,11 @@ func isReceiveFunc(t types.Type) bool {
 	return ok && n.Obj().Name() == "Context" && n.Obj().Pkg() != nil && n.Obj().Pkg().Name() == "actor"
 }
 
+func isProducerType(t types.Type) bool {
+	n, ok := t.(*types.Named)
+	return ok && n.Obj().Name() == "Producer" && n.Obj().Pkg() != nil && n.Obj().Pkg().Name() == "actor"
+}
+
 // drive analyses one entry point from state s and records findings / live successor states.
 func (a *LTA) drive(name string, fn *ssa.Function, s LSt, live map[LSt]bool, panicsEscape bool) {
 	if name == "worker" {
@@ -228,7 +236,7 @@ func (a *LTA) drive(name string, fn *ssa.Function, s LSt, live map[LSt]bool, pan
 	}
 	for _, o := range sortedOuts(sum.outs) {
 		if o.panic {
-			if panicsEscape {
+			if panicsEscape && !o.origin.quiet {
 				a.record(name, lfinding{Kind: "panic-escapes", Stack: o.origin.stack, Pos: o.origin.pos, State: o.st.String()})
 			}
 			continue
@@ -443,7 +451,7 @@ func (a *LTA) analyze(fn *ssa.Function, args map[int]labs, st LSt, deferredPanic
 			if isCancelFunc(d.Call.Value.Type()) || isFuncValue(d.Call.Value) {
 				if fr.env[d.Call.Value] == aNil {
 					report("nil-func-call", "defer "+a.w.pathOf(d.Call.Value), st, d.Pos())
-					runDefers(fr, st, true, lorigin{self + ":defer-nil-call", d.Pos()}, idx-1, k)
+					runDefers(fr, st, true, lorigin{stack: self + ":defer-nil-call", pos: d.Pos()}, idx-1, k)
 					return
 				}
 				if isCancelFunc(d.Call.Value.Type()) {
@@ -546,7 +554,7 @@ func (a *LTA) analyze(fn *ssa.Function, args map[int]labs, st LSt, deferredPanic
 					}
 				}
 			case *ssa.Panic:
-				doPanic(fr, st, lorigin{self + ":panic", ins.Pos()})
+				doPanic(fr, st, lorigin{stack: self + ":panic", pos: ins.Pos()})
 				break instrs
 			case *ssa.Return:
 				addOut(lout{st: st, rec: fr.recovered})
@@ -602,7 +610,7 @@ func (a *LTA) analyze(fn *ssa.Function, args map[int]labs, st LSt, deferredPanic
 						break instrs
 					}
 					// the receiver (or a middleware) may panic
-					doPanic(fr.clone(), st, lorigin{self + ":" + ev, ins.Pos()})
+					doPanic(fr.clone(), st, lorigin{stack: self + ":" + ev, pos: ins.Pos()})
 				case "unclassified-delivery":
 					report("unclassified-delivery", "call "+a.w.pathOf(com.Value), st, ins.Pos())
 					break instrs
@@ -633,7 +641,7 @@ func (a *LTA) analyze(fn *ssa.Function, args map[int]labs, st LSt, deferredPanic
 				case "cancel":
 					if fr.env[com.Value] == aNil {
 						report("nil-func-call", "call "+a.w.pathOf(com.Value), st, ins.Pos())
-						doPanic(fr.clone(), st, lorigin{self + ":nil-call", ins.Pos()})
+						doPanic(fr.clone(), st, lorigin{stack: self + ":nil-call", pos: ins.Pos()})
 						break instrs
 					}
 					a.evCancel(report, st, ins.Pos(), "call")
@@ -643,6 +651,11 @@ func (a *LTA) analyze(fn *ssa.Function, args map[int]labs, st LSt, deferredPanic
 						if mc, ok := com.Value.(*ssa.MakeClosure); ok {
 							callee, _ = mc.Fn.(*ssa.Function)
 						}
+					}
+					if callee == nil && !com.IsInvoke() && isProducerType(com.Value.Type()) {
+						// the Producer is user code: it may panic
+						a.stats.producers++
+						doPanic(fr.clone(), st, lorigin{stack: self + ":producer", pos: ins.Pos(), quiet: true})
 					}
 					if callee != nil && a.M[callee] {
 						if callee == a.invokeFn && len(com.Args) == 2 && strings.HasSuffix(a.w.pathOf(com.Args[1]), ".mbuffer") && st.MB == 1 {
